@@ -252,8 +252,8 @@ class Engine:
 
 
 def _as_load(t):
-    import copy
-    t2 = copy.deepcopy(t)
+    from .srcmodel import clone
+    t2 = clone(t)
     for n in ast.walk(t2):
         if hasattr(n, 'ctx'):
             n.ctx = ast.Load()
